@@ -101,6 +101,26 @@ def generate(seeds=(1, 2, 3), tier="quick"):
                 else:
                     g.thm_deriv(f'{n}_{side}', rv, envt, 0, 'x', n, trees[n], V(n, val), hyps=hy,
                                 what=f"DoubleEndedBVP1D {m.upper()}: u'({pt}) = prescribed derivative, every smooth network")
+    # affine in the raw network output with a non-vanishing coefficient, away from the constrained points
+    def net(name, pt='t'):
+        c = ctxs[name]
+        return ('app', 0, (0,), (('var', c.vars.index(pt)),))
+    for sfx in [''] + [f'_u{j}' for j in range(3)]:
+        n = 'ivp_d' + sfx
+        g.thm_affine(f'{n}_affine', ['t', 't0', 'u0'], ['t', 't0', 'u0'], n, trees[n], net(n), hyps=[('ht', 't ≠ t0')],
+                     what='IVP (value mode): u(t) = A + B·N(t) with B ≠ 0 for t ≠ t0')
+        n = 'ivp_n' + sfx
+        g.thm_affine(f'{n}_affine', ['t', 't0', 'u0', 'up'], ['t', 't0', 'u0', 'up'], n, trees[n], net(n), hyps=[('ht', 't ≠ t0')],
+                     what='IVP (value+derivative mode): affine in N(t) with non-vanishing coefficient for t ≠ t0')
+        n = 'dbvp' + sfx
+        g.thm_affine(f'{n}_affine', ['t', 't0', 't1', 'u0', 'u1'], ['t', 't0', 't1', 'u0', 'u1'], n, trees[n], net(n),
+                     hyps=[('h01', 't0 ≠ t1'), ('ht0', 't ≠ t0'), ('ht1', 't ≠ t1')],
+                     what='DirichletBVP: affine in N(t) with non-vanishing coefficient for t ∉ {t0, t1}')
+        for m in ('dd', 'dn', 'nd', 'nn'):
+            n = f'de_{m}' + sfx
+            hy = [('h01', 'x0 ≠ x1')] + ([('hx0', 'x ≠ x0')] if m in ('dd', 'dn') else []) + ([('hx1', 'x ≠ x1')] if m in ('dd', 'nd') else [])
+            g.thm_affine(f'{n}_affine', ['x', 'x0', 'x1', 'a', 'b'], ['x', 'x0', 'x1', 'a', 'b'], n, trees[n], net(n, 'x'), hyps=hy,
+                         what=f'DoubleEndedBVP1D {m.upper()}: affine in N(x) with non-vanishing coefficient away from the Dirichlet end(s)')
     return g, stats
 
 
@@ -134,7 +154,7 @@ def search(seed, tier):
 
     def draw():
         s = rng.choice([1, 1, 1e-3, 1e3])
-        return rng.uniform(-5, 5) * s
+        return rng.choice([rng.uniform(-5, 5) * s] * 4 + [0.0, -0.0, 1.0, 0])
 
     for it in range(60 if tier == 'quick' else 400):
         t0, t1 = draw(), draw()
